@@ -98,7 +98,9 @@ class SafeAtoms(dict):
         dict.__init__(self)
         for key, value in atoms.items():
             if isinstance(value, str):
-                self[key] = value.replace('"', '\\"')
+                # one record per line: never let a value start a new one
+                self[key] = value.replace('"', '\\"').replace(
+                    '\n', '\\n').replace('\r', '\\r')
             else:
                 self[key] = value
 
